@@ -245,10 +245,15 @@ def propagate_new_locals(fn, ref_names):
             # every name the value reads keeps one meaning throughout the function
             # (`orig = env` before `env` is rebound is a different value later on)
             stable = True
+            stores = {}
+            for y in ast.walk(fn):
+                if isinstance(y, ast.Name) and isinstance(y.ctx, (ast.Store, ast.Del)):
+                    stores[y.id] = stores.get(y.id, 0) + 1
             for x in ast.walk(stmt.value):
-                if isinstance(x, ast.Name) and x.id in binds:
-                    nb = len(binds[x.id]) + (1 if x.id in params else 0)
-                    if nb > 1:
+                if isinstance(x, ast.Name):
+                    if x.id in params and stores.get(x.id, 0) > 0:
+                        stable = False
+                    elif x.id in binds and (len(binds[x.id]) > 1 or stores.get(x.id, 0) > 1):
                         stable = False
             if not stable:
                 continue
